@@ -3,6 +3,7 @@ package main
 import (
 	"encoding/json"
 	"fmt"
+	"strings"
 
 	"github.com/aml-org/amf-custom-validator/pkg"
 	"github.com/aml-org/amf-custom-validator/pkg/config"
@@ -166,6 +167,15 @@ func runShape(c shapeCase) (o shapeObs) {
 			o.Profile = prof
 		}
 	}()
+	if (c.Siblings+c.Depth+len(c.Kind)+len(c.Path))%4 == 0 {
+		// an earlier draft of the same profile that forgot its prefixes (rejected), and one that only mentions the
+		// properties in a message: neither may influence the compilation of the finished profile
+		draft := strings.Replace(prof, "prefixes:\n    ex: "+exNS+"\n", "", 1)
+		quiet(func() { pkg.CompileProfile(draft, false, nil) })
+		quiet(func() {
+			pkg.CompileProfile("profile: draft\nviolation: [v]\nvalidations:\n  v:\n    targetClass: doc.Unit\n    message: \"{{ex.p}} {{ex.q}} {{ex.r}} {{ex.s1}} {{ex.c2}} {{ex.z}} {{ex.a}} {{ex.b}} {{ex.has_name}} {{ex.other}}\"\n    propertyConstraints:\n      doc.encodes:\n        minCount: 1\n", false, nil)
+		})
+	}
 	h, err := pkg.CompileProfile(prof, false, nil)
 	if err != nil {
 		o.Err = err.Error()
